@@ -59,11 +59,13 @@ def _is_prime(n):
 
 
 def find_toy_curves(primes, want="both"):
-    """deterministic search: for each p the first (a, b) with prime group order;
-    returns dicts(p, a, b, n, G, table) ; table[e] = e*G for e in 0..n-1 (None at 0)"""
+    """deterministic search.  Per prime p, a greedy cover of the features a protocol
+    harness needs to reach: group order n > p; n < p; a point whose x is a non-zero
+    multiple of n (r = 0 with x != 0); a point with x = 0.
+    returns dicts(p, a, b, n, G, table, kind); table[e] = e*G (None at e = 0)"""
     out = []
     for p in primes:
-        found = {}
+        cands = []
         for a in range(p):
             for b in range(1, p):
                 if (4 * a ** 3 + 27 * b * b) % p == 0:
@@ -72,20 +74,26 @@ def find_toy_curves(primes, want="both"):
                 n = len(pts) + 1
                 if not _is_prime(n) or n < 5:
                     continue
-                kind = "n<p" if n < p else ("n>p" if n > p else "n=p")
-                if kind in found:
-                    continue
-                G = pts[0]
-                table = [None]
-                cur = None
-                for e in range(1, n):
-                    cur = aff_add(cur, G, a, p)
-                    table.append(cur)
-                assert aff_add(cur, G, a, p) is None
-                found[kind] = dict(p=p, a=a, b=b, n=n, G=G, table=table, kind=kind)
-            if len(found) >= 2:
-                break
-        out.extend(found[k] for k in sorted(found))
+                feats = set()
+                feats.add("n>p" if n > p else ("n<p" if n < p else "n=p"))
+                if any(x != 0 and x % n == 0 for (x, y) in pts):
+                    feats.add("x=kn")
+                if any(x == 0 for (x, y) in pts):
+                    feats.add("x=0")
+                cands.append((a, b, n, pts, feats))
+        covered = set()
+        for (a, b, n, pts, feats) in cands:
+            if feats <= covered:
+                continue
+            covered |= feats
+            G = pts[0]
+            table = [None]
+            cur = None
+            for e in range(1, n):
+                cur = aff_add(cur, G, a, p)
+                table.append(cur)
+            assert aff_add(cur, G, a, p) is None
+            out.append(dict(p=p, a=a, b=b, n=n, G=G, table=table, kind="+".join(sorted(feats))))
     return out
 
 
